@@ -389,6 +389,66 @@ def _html_template():
 # one execution
 
 
+# a construction that raises inside Mako's hooked blocks: (template text, warning filter action)
+BROKEN = {
+    "import-error": ("<%!\n    import module_that_does_not_exist_c12\n%>\nhello\n", "always"),
+    "module-syntax-error": ("hello\n<% break %>\n", "always"),  # accepted by the expression parser, refused by compile()
+    "warning-as-error-compile": ("hello\n${1 is 1}\n", "error"),  # raised while the module is compiled
+    "warning-as-error-parse": ("hello\n${'\\d'}\n", "error"),  # raised while the expression is parsed
+}
+HIST_RAISE = ["r_expr", "r_code2", "r_modtop"]
+HIST_WARN = ["w_expr", "w_code2", "w_mod", "w_modwarn"]
+RETRY_WARN = ["w_expr", "w_is", "w_mexpr", "w_code2", "w_ctl", "w_mod", "w_modwarn"]
+RELOADS = ["checks", "newlookup"]
+
+
+def planted_of(rec, st):
+    planted = []
+    for w in rec:
+        cat = w.category.__name__
+        if cat == "SyntaxWarning" or "planted" in str(w.message):
+            planted.append((cat, str(w.message), w.filename, w.lineno))
+        else:
+            st.extra["other_warnings"] = st.extra.get("other_warnings", 0) + 1
+    return planted
+
+
+def judge_shown(ck, planted, expected, names, kind, path, low, site, pfx=""):
+    """the planted literal must be shown exactly once, under the template's name, at its line"""
+    if len(planted) != len(expected):
+        pos = low.positions[site] if site is not None else {"ctl": 0, "anc": []}
+        anc = pos["anc"]
+        closure_in_anon = any(
+            k in ("ablock", "block") and any(x in ("defb", "defa", "defbuf", "ablock") for x in anc[i + 1:])
+            for i, k in enumerate(anc)
+        )
+        if kind in c12_ir.TOP_ONLY_PLANTS and pos["ctl"] and len(planted) > 1:
+            sig = "warn:module-block-inside-control-structure:shown-%dx" % len(planted)
+        elif closure_in_anon and len(planted) > 1:
+            sig = "warn:closure-nested-in-block-emitted-twice:shown-%dx" % len(planted)
+        else:
+            sig = pfx + "warn:%s:count=%d" % (kind, len(planted))
+        ck.bad(sig, "planted literal is shown %d times instead of once" % len(planted), expected, planted)
+        return
+    for (uri, lines, cat, msg), (ocat, omsg, ofn, oln) in zip(expected, planted):
+        if ocat != cat or msg not in omsg:
+            ck.bad(pfx + "warn:%s:other-warning" % kind, "another warning than the planted one", [cat, msg], [ocat, omsg])
+        if ofn not in names.get(uri, ()):
+            ck.bad(pfx + "warn:%s:filename:%s" % (kind, path), "warning shown against a name that is neither the template's filename nor its URI", sorted(names.get(uri, ())), ofn)
+        if oln not in lines:
+            rel = "before" if oln < min(lines) else "after"
+            ck.bad(pfx + "warn:%s:line:%s" % (kind, rel), "warning shown against another line than the planted one", lines, oln)
+
+
+def hook_check(ck, st, before, when):
+    """universal: Template construction / render leaves warnings.showwarning as it found it"""
+    st.oracles["showwarning_restored"] += 1
+    if warnings.showwarning is not before:
+        ck.bad("hook:showwarning-not-restored:" + when, "warnings.showwarning is not the hook that was installed before", repr(before)[:80], repr(warnings.showwarning)[:120])
+        return False
+    return True
+
+
 class Runner:
     def __init__(self, st, seed):
         self.st = st
@@ -433,12 +493,15 @@ class Runner:
         b = None
         out = None
         err = tb = None
+        hook0 = warnings.showwarning
         try:
             try:
                 b = build(low, path, d, {"format_exceptions": True} if mode == "fmtexc" else None)
                 out = b.main.render_unicode(**self.rctx)
             except Exception as e:  # noqa
                 err, tb = e, e.__traceback__
+            if not hook_check(ck, st, hook0, "after-failed-construction" if b is None else "after-render"):
+                warnings.showwarning = hook0
             st.oracles["outcome"] += 1
             if ref[0] == "ok":
                 label = "ok"
@@ -499,19 +562,15 @@ class Runner:
                 warnings.resetwarnings()
                 warnings.simplefilter(action)
                 warnings.onceregistry.clear()
+                hook0 = warnings.showwarning
                 try:
                     b = build(low, path, d)
                     out = b.main.render_unicode(**self.rctx)
                 except Exception as e:  # noqa
                     err = e
+                hook_check(ck, st, hook0, "after-exception" if err is not None else "after-render")
             names = b.names if b is not None else None
-            planted = []
-            for w in rec:
-                cat = w.category.__name__
-                if cat == "SyntaxWarning" or "planted" in str(w.message):
-                    planted.append((cat, str(w.message), w.filename, w.lineno))
-                else:
-                    st.extra["other_warnings"] = st.extra.get("other_warnings", 0) + 1
+            planted = planted_of(rec, st)
             st.oracles["warnings"] += 1
             if action == "error":
                 label = "warn-error:" + type(err).__name__
@@ -537,29 +596,8 @@ class Runner:
                         # the template is not compiled again; whether CPython repeats the warning for the module
                         # file depends on the literal surviving verbatim in it: not fixed by the statement
                         st.oracles["warn_dontcare_reopen"] += 1
-                    elif len(planted) != len(expected):
-                        pos = low.positions[site] if site is not None else {"ctl": 0, "anc": []}
-                        anc = pos["anc"]
-                        closure_in_anon = any(
-                            k in ("ablock", "block") and any(x in ("defb", "defa", "defbuf", "ablock") for x in anc[i + 1:])
-                            for i, k in enumerate(anc)
-                        )
-                        if kind in c12_ir.TOP_ONLY_PLANTS and pos["ctl"] and len(planted) > 1:
-                            sig = "warn:module-block-inside-control-structure:shown-%dx" % len(planted)
-                        elif closure_in_anon and len(planted) > 1:
-                            sig = "warn:closure-nested-in-block-emitted-twice:shown-%dx" % len(planted)
-                        else:
-                            sig = "warn:%s:count=%d" % (kind, len(planted))
-                        ck.bad(sig, "planted literal is shown %d times instead of once" % len(planted), expected, planted)
                     else:
-                        for (uri, lines, cat, msg), (ocat, omsg, ofn, oln) in zip(expected, planted):
-                            if ocat != cat or msg not in omsg:
-                                ck.bad("warn:%s:other-warning" % kind, "another warning than the planted one", [cat, msg], [ocat, omsg])
-                            if ofn not in names.get(uri, ()):
-                                ck.bad("warn:%s:filename:%s" % (kind, path), "warning shown against a name that is neither the template's filename nor its URI", sorted(names.get(uri, ())), ofn)
-                            if oln not in lines:
-                                rel = "before" if oln < min(lines) else "after"
-                                ck.bad("warn:%s:line:%s" % (kind, rel), "warning shown against another line than the planted one", lines, oln)
+                        judge_shown(ck, planted, expected, names, kind, path, low, site)
         finally:
             shutil.rmtree(d, ignore_errors=True)
         st.outcomes[label] += 1
@@ -567,6 +605,168 @@ class Runner:
             st.sample({"case": case, "files": low.files, "outcome": label, "expected_warnings": expected})
         self.report(ck, case, "warnings")
         return label
+
+    # ---- history: a module-directory template is edited and loaded again in the same process
+    def run_hist(self, body, nl, site, kind, reload, k=2):
+        """version 1 -> observe -> every file rewritten with k lines inserted at its top (mtime +2 s) -> reloaded in the
+        same process (reload = 'checks': same TemplateLookup with filesystem_checks; 'newlookup': a new TemplateLookup on
+        the same module directory) -> observe again.  Each observation must map to its own version's lines."""
+        import linecache
+
+        from mako.lookup import TemplateLookup
+
+        st = self.st
+        case = {"mode": "hist", "body": body, "nl": nl, "site": site, "kind": kind, "reload": reload, "k": k, "seed": self.seed}
+        is_warn = kind in c12_ir.WARN_KINDS
+        d = self.casedir()
+        m = os.path.join(d, "_mods")
+        st.traces += 1
+        labels = []
+        sigs1 = set()
+        viol = []
+        lk = None
+        popped = set()
+        try:
+            for step, prefix in ((1, 0), (2, k)):
+                low = c12_ir.lower(body, nl, kind, site, self.seed, prefix)
+                ref = c12_ir.reference(low, self.ctx)
+                ck = Checker(low, st)
+                _write_files(low, d)
+                if step == 2:
+                    for uri in low.files:
+                        fp = d + uri
+                        mt = max(os.stat(fp).st_mtime, time.time()) + 2
+                        os.utime(fp, (mt, mt))
+                if lk is None or (step == 2 and reload == "newlookup"):
+                    lk = TemplateLookup(directories=[d], module_directory=m, filesystem_checks=True)
+                b = Built()
+                b.lookup = lk
+                b.names = {uri: {d + uri, uri} for uri in low.files}
+                st.evaluations += 1
+                st.transitions += 1
+                err = tb = out = None
+                hook0 = warnings.showwarning
+                if is_warn:
+                    with warnings.catch_warnings(record=True) as rec:
+                        warnings.resetwarnings()
+                        warnings.simplefilter("always")
+                        hook0 = warnings.showwarning
+                        try:
+                            b.main = lk.get_template(low.main)
+                            out = b.main.render_unicode(**self.rctx)
+                        except Exception as e:  # noqa
+                            err = e
+                        hook_check(ck, st, hook0, "after-reload")
+                    st.oracles["warnings"] += 1
+                    if err is not None:
+                        ck.bad("warn:%s:exception:%s" % (kind, type(err).__name__), "construction/render fails although warnings are not errors", None, repr(err)[:300])
+                    else:
+                        if ref[0] == "ok" and out != ref[1]:
+                            ck.bad("outcome:output", "rendered output differs from the reference", ref[1][:300], out[:300])
+                        judge_shown(ck, planted_of(rec, st), low.plant_info["warn"], b.names, kind, "moddir", low, site)
+                    labels.append("warn")
+                else:
+                    try:
+                        b.main = lk.get_template(low.main)
+                        out = b.main.render_unicode(**self.rctx)
+                    except Exception as e:  # noqa
+                        err, tb = e, e.__traceback__
+                    if not hook_check(ck, st, hook0, "after-reload"):
+                        warnings.showwarning = hook0
+                    st.oracles["outcome"] += 1
+                    if ref[0] == "ok":
+                        labels.append("ok")
+                        if err is not None:
+                            ck.bad("outcome:unexpected-exception:" + type(err).__name__, "program without a reachable failure raises", ref[1][:200], repr(err)[:300])
+                        elif out != ref[1]:
+                            ck.bad("outcome:output", "rendered output differs from the reference", ref[1][:300], out[:300])
+                    else:
+                        exc, chain = ref[1], ref[2]
+                        labels.append("tb:" + ">".join(e["kind"] for e in chain))
+                        if err is None:
+                            ck.bad("outcome:no-exception", "planted failure did not come out of render", repr(exc), (out or "")[:200])
+                        elif type(err).__name__ != type(exc).__name__ or str(err) != str(exc) or not hasattr(b, "main"):
+                            ck.bad("outcome:other-exception:" + type(err).__name__, "another exception than the planted one", repr(exc), repr(err)[:300])
+                        else:
+                            ck.check_tb(err, tb, b, chain, "moddir", False)
+                            for t in b.templates.values():
+                                popped.add(t.module.render_body.__code__.co_filename)
+                    err = tb = None
+                for sig, text, exp, obs in ck.viol:
+                    if step == 1:
+                        sigs1.add(sig)
+                        viol.append((sig, "version 1: " + text, exp, obs))
+                    elif sig in sigs1:
+                        viol.append((sig, "version 2: " + text, exp, obs))
+                    else:
+                        # holds for version 1, fails for the edited version loaded in the same process
+                        viol.append(("recompiled:" + sig, "after the template was edited and loaded again (%s): %s" % (reload, text), exp, obs))
+        finally:
+            for fn in popped:
+                linecache.cache.pop(fn, None)
+            shutil.rmtree(d, ignore_errors=True)
+        st.outcomes["hist:" + "/".join(labels)] += 1
+        for sig, text, exp, obs in viol:
+            st.violation(sig, case, "recompiled module file: " + text, expected=core.jsonable(exp), observed=core.jsonable(obs))
+
+    # ---- a construction that raises, then a warning-emitting template under the same URI
+    def run_retry(self, body, nl, site, kind, way):
+        from mako.lookup import TemplateLookup
+
+        st = self.st
+        low = c12_ir.lower(body, nl, kind, site, self.seed)
+        if len(low.files) != 1:
+            return None
+        ref = c12_ir.reference(low, self.ctx)
+        case = {"mode": "retry", "body": body, "nl": nl, "site": site, "kind": kind, "way": way, "seed": self.seed}
+        ck = Checker(low, st)
+        broken, action = BROKEN[way]
+        uri = "home"  # word characters only: the module id of a string template equals this name
+        st.evaluations += 2
+        st.transitions += 2
+        st.traces += 1
+        err1 = err2 = out = None
+        with warnings.catch_warnings(record=True) as rec:
+            warnings.resetwarnings()
+            warnings.simplefilter(action)
+            warnings.onceregistry.clear()
+            hook0 = warnings.showwarning
+            lk = TemplateLookup()
+            try:
+                lk.put_string(uri, broken.replace("\n", nl))
+            except Exception as e:  # noqa
+                err1 = e
+            # deliberately not repaired here: the second construction runs in whatever state the first one left
+            hook_check(ck, st, hook0, "after-failed-construction")
+            del rec[:]
+            warnings.resetwarnings()
+            warnings.simplefilter("always")
+            warnings.onceregistry.clear()
+            try:
+                lk.put_string(uri, low.files[low.main])
+                out = lk.get_template(uri).render_unicode(**self.rctx)
+            except Exception as e:  # noqa
+                err2 = e
+            st.oracles["showwarning_restored"] += 1
+            if warnings.showwarning is not hook0 and not ck.viol:
+                ck.bad("hook:showwarning-not-restored:after-render", "warnings.showwarning is not the hook that was installed before", None, repr(warnings.showwarning)[:120])
+            planted = planted_of(rec, st)
+        st.oracles["warnings"] += 1
+        label = "retry:%s:%s" % (way, type(err1).__name__)
+        pfx = "retry:%s:" % way
+        if err1 is None:
+            st.extra["retry_first_did_not_fail"] = st.extra.get("retry_first_did_not_fail", 0) + 1
+        if err2 is not None:
+            ck.bad(pfx + "warn:%s:exception:%s" % (kind, type(err2).__name__), "the corrected template fails", None, repr(err2)[:300])
+        else:
+            if ref[0] == "ok" and out != ref[1]:
+                ck.bad("outcome:output", "rendered output differs from the reference", ref[1][:300], out[:300])
+            judge_shown(ck, planted, low.plant_info["warn"], {low.main: {uri}}, kind, "string", low, site, pfx)
+        st.outcomes[label] += 1
+        for sig, text, exp, obs in ck.viol:
+            st.violation(sig, case, "failed construction then retry (%s): %s" % (way, text), expected=core.jsonable(exp), observed=core.jsonable(obs))
+        return label
+
 
 
 # --------------------------------------------------------------------------
@@ -585,6 +785,8 @@ def tier_spec(tier):
             ("rot-w1-crlf", [0, 1], A, ["\r\n"], "rotated"),
             ("warn-w1", [0, 1], A, ["\n"], "warn"),
             ("warn-w2-closures", [2], ["block", "ablock", "defb"], ["\n"], "warn"),
+            ("hist-w1", [0, 1], A, ["\n"], "hist"),
+            ("retry-w1", [0, 1], A, ["\n"], "retry"),
         ]
     return [
         ("full-w2", [0, 1, 2], A, ["\n"], "full"),
@@ -593,6 +795,10 @@ def tier_spec(tier):
         ("warn-w1", [0, 1], A, ["\n"], "warn"),
         ("warn-w2", [2], WARN2_KINDS, ["\n"], "warn"),
         ("warn-w1-crlf", [0, 1], A, ["\r\n"], "warn"),
+        ("hist-w2", [0, 1, 2], Q, ["\n"], "hist"),
+        ("hist-w1", [1], A, ["\n", "\r\n"], "hist"),
+        ("retry-w2", [0, 1, 2], Q, ["\n"], "retry"),
+        ("retry-w1", [1], A, ["\n"], "retry"),
     ]
 
 
@@ -607,7 +813,7 @@ def plan(tier, seed):
     jobs = []
     for gi, (name, weights, kinds, nls, scheme) in enumerate(tier_spec(tier)):
         n = len(group_programs(weights, kinds))
-        per = 6 if scheme == "full" else (12 if scheme == "rotated" else 4)
+        per = {"full": 6, "rotated": 12, "hist": 3, "retry": 6}.get(scheme, 4)
         if tier == "thorough":
             per = max(2, per // 2)
         ns = max(1, min(96, (n + per - 1) // per))
@@ -644,6 +850,24 @@ def run_program(r, body, pi, nl, scheme):
     npos = len(dry.positions)
     # the unplanted program: output on every path (validates the reference as well)
     ref0 = c12_ir.reference(dry, r.ctx)
+    if scheme in ("hist", "retry"):
+        for si in range(npos):
+            top = dry.positions[si]["top"]
+            kinds = (HIST_RAISE + HIST_WARN) if scheme == "hist" else RETRY_WARN
+            for kind in kinds:
+                if kind in c12_ir.TOP_ONLY_PLANTS and not top:
+                    continue
+                if scheme == "hist":
+                    for reload in RELOADS:
+                        st.states += 1
+                        st.nontrivial += 1
+                        r.run_hist(body, nl, si, kind, reload)
+                else:
+                    for way in BROKEN:
+                        if r.run_retry(body, nl, si, kind, way) is not None:
+                            st.states += 1
+                            st.nontrivial += 1
+        return
     if scheme != "warn":
         st.states += 1
         for path in PATHS:
@@ -688,6 +912,10 @@ def replay(case):
         body = c12_ir.to_tuple(case["body"])
         if case["mode"] == "warn":
             r.run_warn(body, case["nl"], case["site"], case["kind"], case["path"], case["action"])
+        elif case["mode"] == "hist":
+            r.run_hist(body, case["nl"], case["site"], case["kind"], case["reload"], case.get("k", 2))
+        elif case["mode"] == "retry":
+            r.run_retry(body, case["nl"], case["site"], case["kind"], case["way"])
         else:
             r.run_raise(body, case["nl"], case["site"], case["kind"], case["path"], case.get("check", "plain"))
     finally:
